@@ -309,6 +309,9 @@ def required_family(ctx, only=None):
         p.add_argument("--top", type=str, required=True)
         p.add_argument("--grp.need", type=int, required=True)
         p.add_argument("--opt", type=int, default=1)
+        from typing import Any
+
+        p.add_argument("--anyarg", type=Any, default=None)
         inner = ArgumentParser(exit_on_error=False)
         inner.add_argument("--x", type=int, required=True)
         inner.add_argument("--y", type=int, default=2)
@@ -420,6 +423,14 @@ def required_family(ctx, only=None):
                 build().parse_args(argv_of(full[sub], sub), defaults=defaults)
             except Exception as ex:  # noqa
                 ctx.finding("C06/required-family/complete-input-rejected", {"error": fmt_exc(ex), "sub": sub, "defaults": defaults})
+            # an Any typed argument defines no nested keys either
+            try:
+                r = build().parse_args(["--anyarg.zq7=1"] + argv_of(full[sub], sub), defaults=defaults)
+                ctx.finding("C06/nested-option-below-an-argument-without-nested-keys/accepted/any", {"result": short(r.anyarg, 100)})
+            except ArgumentError:
+                ctx.cls("nested-option-below-any:rej")
+            except Exception as ex:  # noqa
+                ctx.cls("escape (C03)")
             if only is None:
                 ctx.end(raise_on_fail=False)
 
